@@ -597,31 +597,38 @@ def run_check(chk: PropertyCheck, tier: str, seed: int, replay: str | None = Non
     load_autoarray()
     rng = random.Random(seed)
     changed_fns = [] if replay else changed_modelled_functions(chk)
+    n_base = None
     if replay:
         rp = json.loads(Path(replay).read_text())
         cases = [rp["input"]] if "input" in rp and rp["input"] else []
     else:
         cases = list(chk.corpus())
-        gen_tier = tier
-        if tier == "quick" and changed_fns:
-            gen_tier = "thorough"  # modelled code changed: look harder (heuristic, see DESIGN §9)
-        t_gen = time.time()
-        for c in chk.generate(gen_tier, rng):
+        for c in chk.generate(tier, rng):
             cases.append(c)
             if max_cases and len(cases) >= max_cases:
                 break
-            if gen_tier != tier and time.time() - t_gen > chk.escalation_budget_s / 4 and len(cases) > 200:
-                break
+        n_base = len(cases)
+        if tier == "quick" and changed_fns and not max_cases:
+            # modelled code changed: after the complete quick set, look harder with the thorough
+            # generators for a bounded extra time (heuristic, see DESIGN §9)
+            t_gen = time.time()
+            rng2 = random.Random(seed * 1000003 + 17)
+            for c in chk.generate("thorough", rng2):
+                cases.append(c)
+                if time.time() - t_gen > chk.escalation_budget_s / 4 and len(cases) - n_base > 200:
+                    break
 
     tags = {}
     evaluated = []
     skipped = 0
     impl_errs = {}
-    t_impl0 = time.time()
-    escalated = (not replay) and bool(changed_fns) and tier == "quick"
-    for c in cases:
-        if escalated and time.time() - t_impl0 > chk.escalation_budget_s / 2 and len(evaluated) > 300:
-            break  # escalated quick run: bounded extra effort (the thorough tier has no such bound)
+    t_extra0 = None
+    for k_case, c in enumerate(cases):
+        if n_base is not None and k_case >= n_base:
+            # extra (escalated) cases: bounded effort; the complete quick set above is never cut
+            t_extra0 = t_extra0 or time.time()
+            if time.time() - t_extra0 > chk.escalation_budget_s / 2:
+                break
         obs, sk = safe_impl(chk, c)
         if sk:
             skipped += 1
